@@ -17,6 +17,7 @@ package state
 //@ ensures[frame-keys] forall k string :: k != entry.Key ==> T_kvs(k) == old(T_kvs(k))
 //@ ensures[index-set] err == nil && !updateMax ==> idxVal("kvs") == entry.ModifyIndex
 //@ ensures[index-max] err == nil && updateMax ==> idxVal("kvs") == ite(old(idxVal("kvs")) >= entry.ModifyIndex, old(idxVal("kvs")), entry.ModifyIndex)
+//@ ensures[other-indexes-untouched] forall t string :: strLower(t) != "kvs" ==> T_index(t) == old(T_index(t))
 //@ modifies T.kvs, T.index
 
 //@ func kvsSetTxn
@@ -40,7 +41,7 @@ package state
 //@ results ok, err
 //@ requires entry != nil
 //@ ensures[cas-honest] err == nil ==> (ok <==> ((old(entry.ModifyIndex) == 0 && old(T_kvs(entry.Key)) == nil) || (old(entry.ModifyIndex) != 0 && old(T_kvs(entry.Key)) != nil && old(T_kvs(entry.Key).ModifyIndex) == old(entry.ModifyIndex))))
-//@ ensures[fail-unchanged] err == nil && !ok ==> (forall k string :: T_kvs(k) == old(T_kvs(k))) && idxVal("kvs") == old(idxVal("kvs")) && entry.ModifyIndex == old(entry.ModifyIndex)
+//@ ensures[fail-unchanged] err == nil && !ok ==> (forall k string :: T_kvs(k) == old(T_kvs(k))) && (forall t string :: T_index(t) == old(T_index(t))) && idxVal("kvs") == old(idxVal("kvs")) && entry.ModifyIndex == old(entry.ModifyIndex)
 //@ ensures[err-not-ok] err != nil ==> !ok
 //@ modifies entry.CreateIndex, entry.ModifyIndex, entry.Session, T.kvs, T.index
 
@@ -394,19 +395,42 @@ package state
 //@ ensures[only-removes] forall k string :: T_prepared_queries(k) == nil || T_prepared_queries(k) == old(T_prepared_queries(k))
 //@ modifies T.prepared-queries, T.index
 
-// updateSessionCheck re-evaluates the synthetic session health check; through ensureCheckTxn it can reach
-// deleteSessionTxn again (for *other* sessions bound to a check that turns critical). That mutual recursion is cut
-// here by an ASSUMED contract (listed under trusted_contracts in the evidence): it never creates a session, never
-// gives a key, check link or prepared query to a session, and leaves an absent session absent.
+// two-state: nothing is given to any session - a key that has a holder afterwards had the same holder before,
+// check links and session-bound prepared queries are only ever removed
+//@ pure holdersOnlyLost() bool = forall k string :: T_kvs(k) != nil && T_kvs(k).Session != "" ==> old(T_kvs(k)) != nil && old(T_kvs(k).Session) == T_kvs(k).Session
+//@ pure linksOnlyRemoved() bool = forall k string :: T_session_checks(k) == nil || T_session_checks(k) == old(T_session_checks(k))
+//@ pure queriesOnlyRemoved() bool = forall k string :: T_prepared_queries(k) == nil || T_prepared_queries(k) == old(T_prepared_queries(k))
+
+// two-state: the checks table holds the same keys as before, and the row under each key still names the same
+// peer, node, check id and service (rows may have been replaced by updated copies: status, output, indexes)
+//@ pure checkIdentityKept(k string) bool = (T_checks(k) == nil) == (old(T_checks(k)) == nil) && (T_checks(k) != nil ==> T_checks(k).PeerName == old(T_checks(k).PeerName) && T_checks(k).Node == old(T_checks(k).Node) && T_checks(k).CheckID == old(T_checks(k).CheckID) && T_checks(k).ServiceID == old(T_checks(k).ServiceID))
+//@ pure checksKeepIdentity() bool = forall k string :: checkIdentityKept(k)
+
+// updateSessionCheck re-evaluates the synthetic session health checks of the session's node; through ensureCheckTxn it
+// can reach deleteSessionTxn again (for *other* sessions bound to a check that turns critical). The three functions
+// are verified against each other's contracts (partial correctness; termination of the mutual recursion is not proved).
+// It never creates a session, never gives a key, check link or prepared query to any session, and in the checks
+// table it only replaces existing rows by updated copies under the same key.
 //@ func Store.updateSessionCheck
-//@ trusted
+//@ props C04
 //@ results err
 //@ requires session != nil
 //@ ensures[no-session-created] forall id string :: old(T_sessions(id)) == nil ==> T_sessions(id) == nil
-//@ ensures[no-lock-given] old(noLocksOf(session.ID)) ==> noLocksOf(session.ID)
-//@ ensures[no-link-given] old(noCheckLinksOf(session.ID)) ==> noCheckLinksOf(session.ID)
-//@ ensures[no-query-given] old(noQueriesOf(session.ID)) ==> noQueriesOf(session.ID)
-//@ modifies T.sessions, T.kvs, T.tombstones, T.session_checks, T.prepared-queries, T.index, structs.DirEntry.Session, structs.DirEntry.RaftIndex, structs.DirEntry.LockIndex
+//@ ensures[holders-only-lost] err == nil ==> holdersOnlyLost()
+//@ ensures[links-only-removed] linksOnlyRemoved()
+//@ ensures[queries-only-removed] queriesOnlyRemoved()
+//@ ensures[checks-only-replaced] checksKeepIdentity()
+//@ ensures[catalog-parents-untouched] (forall k string :: T_nodes(k) == old(T_nodes(k))) && (forall k string :: T_services(k) == old(T_services(k)))
+//@ modifies T.sessions, T.kvs, T.tombstones, T.session_checks, T.prepared-queries, T.index, T.checks, map:s.lockDelay.delay
+//@ loop 1 invariant[pos] 0 <= itPos(iter) && itPos(iter) <= itLen(iter)
+//@ loop 1 invariant[cursor] (check != nil ==> itPos(iter) >= 1 && check == itElem(iter, itPos(iter)-1)) && (check == nil ==> itPos(iter) == itLen(iter))
+//@ loop 1 invariant[no-session-created] forall id string :: old(T_sessions(id)) == nil ==> T_sessions(id) == nil
+//@ loop 1 invariant[holders-only-lost] holdersOnlyLost()
+//@ loop 1 invariant[links-only-removed] linksOnlyRemoved()
+//@ loop 1 invariant[queries-only-removed] queriesOnlyRemoved()
+//@ loop 1 invariant[checks-only-replaced] checksKeepIdentity()
+//@ loop 1 invariant[snapshot-rows-are-entry-rows] forall j int, r *structs.HealthCheck :: 0 <= j && j < itLen(iter) && r == itElem(iter, j).(*structs.HealthCheck) ==> r != nil && old(T_checks(r)) == r
+//@ loop 1 invariant[catalog-parents-untouched] (forall k string :: T_nodes(k) == old(T_nodes(k))) && (forall k string :: T_services(k) == old(T_services(k)))
 
 //@ func Store.deleteSessionTxn
 //@ props C04
@@ -414,9 +438,15 @@ package state
 //@ ensures[absent-noop] old(T_sessions(sessionID)) == nil ==> err == nil && (forall k string :: T_kvs(k) == old(T_kvs(k))) && (forall id string :: T_sessions(id) == old(T_sessions(id))) && (forall t string :: T_index(t) == old(T_index(t)))
 //@ ensures[session-gone] err == nil ==> T_sessions(sessionID) == nil
 //@ ensures[no-session-created] forall id string :: old(T_sessions(id)) == nil ==> T_sessions(id) == nil
+//@ ensures[checks-only-replaced] checksKeepIdentity()
+//@ ensures[catalog-parents-untouched] (forall k string :: T_nodes(k) == old(T_nodes(k))) && (forall k string :: T_services(k) == old(T_services(k)))
+//@ ensures[holders-only-lost] err == nil ==> holdersOnlyLost()
+//@ ensures[links-only-removed] linksOnlyRemoved()
+//@ ensures[queries-only-removed] queriesOnlyRemoved()
 //@ ensures[locks-gone] err == nil && old(T_sessions(sessionID)) != nil ==> noLocksOf(sessionID)
 //@ ensures[check-links-gone] err == nil && old(T_sessions(sessionID)) != nil ==> noCheckLinksOf(sessionID)
 //@ ensures[queries-gone] err == nil && old(T_sessions(sessionID)) != nil ==> noQueriesOf(sessionID)
+//@ modifies T.sessions, T.kvs, T.tombstones, T.session_checks, T.prepared-queries, T.index, T.checks, map:s.lockDelay.delay
 //@ loop 1 invariant[pos] 0 <= itPos(entries) && itPos(entries) <= itLen(entries)
 //@ loop 1 invariant[cursor] (entry != nil ==> itPos(entries) >= 1 && entry == itElem(entries, itPos(entries)-1)) && (entry == nil ==> itPos(entries) == itLen(entries))
 //@ loop 1 invariant[collected] len(kvs) == ite(entry != nil, itPos(entries) - 1, itPos(entries)) && forall j int :: 0 <= j && j < len(kvs) ==> kvs[j] == itElem(entries, j)
@@ -430,6 +460,10 @@ package state
 //@ loop 6 invariant[cursor] (wrapped != nil ==> itPos(queries) >= 1 && wrapped == itElem(queries, itPos(queries)-1)) && (wrapped == nil ==> itPos(queries) == itLen(queries))
 //@ loop 6 invariant[collected] len(ids) == ite(wrapped != nil, itPos(queries) - 1, itPos(queries)) && forall j int :: 0 <= j && j < len(ids) ==> ids[j] == itElem(queries, j).(*queryWrapper).PreparedQuery.ID
 //@ loop 7 invariant[remaining-cover] forall k string :: T_prepared_queries(k) != nil && strLower(T_prepared_queries(k).PreparedQuery.Session) == strLower(sessionID) ==> exists j int :: range7_idx <= j && j < len(ids) && ids[j] == T_prepared_queries(k).PreparedQuery.ID
+//@ loop 2 invariant[holders-only-lost] holdersOnlyLost()
+//@ loop 3 invariant[holders-only-lost] holdersOnlyLost()
+//@ loop 5 invariant[links-only-removed] linksOnlyRemoved()
+//@ loop 7 invariant[queries-only-removed] queriesOnlyRemoved()
 //@ loop 4 invariant[locks-gone] noLocksOf(sessionID)
 //@ loop 5 invariant[locks-gone] noLocksOf(sessionID)
 //@ loop 6 invariant[locks-gone] noLocksOf(sessionID)
@@ -591,22 +625,94 @@ package state
 //@ ensures[parents-untouched] (forall k string :: T_nodes(k) == old(T_nodes(k))) && (forall k string :: T_services(k) == old(T_services(k)))
 //@ ensures[critical-check-invalidates-sessions] rerr == nil && hc.Status == api.HealthCritical && hc.PeerName == "" ==> forall k string :: old(linkOfCheck(T_session_checks(k), hc.Node, string(hc.CheckID))) ==> T_sessions(old(T_session_checks(k).Session)) == nil
 //@ ensures[no-session-created] forall id string :: old(T_sessions(id)) == nil ==> T_sessions(id) == nil
+//@ ensures[other-checks-keep-identity] forall k string :: (T_checks(k) == nil || T_checks(k) != checkAt(hc.Node, string(hc.CheckID), hc.PeerName)) ==> checkIdentityKept(k)
+//@ ensures[this-check-new-or-as-before] checkAt(hc.Node, string(hc.CheckID), hc.PeerName) == hc || checkAt(hc.Node, string(hc.CheckID), hc.PeerName) == nil || (old(checkAt(hc.Node, string(hc.CheckID), hc.PeerName)) != nil && checkAt(hc.Node, string(hc.CheckID), hc.PeerName).PeerName == old(checkAt(hc.Node, string(hc.CheckID), hc.PeerName).PeerName) && checkAt(hc.Node, string(hc.CheckID), hc.PeerName).Node == old(checkAt(hc.Node, string(hc.CheckID), hc.PeerName).Node) && checkAt(hc.Node, string(hc.CheckID), hc.PeerName).CheckID == old(checkAt(hc.Node, string(hc.CheckID), hc.PeerName).CheckID) && checkAt(hc.Node, string(hc.CheckID), hc.PeerName).ServiceID == old(checkAt(hc.Node, string(hc.CheckID), hc.PeerName).ServiceID))
+//@ ensures[nothing-removed] forall k string :: old(T_checks(k)) != nil ==> T_checks(k) != nil
+//@ ensures[every-key-kept-or-this-check] forall k string :: checkIdentityKept(k) || T_checks(k) == hc
+//@ ensures[holders-only-lost] rerr == nil ==> holdersOnlyLost()
+//@ ensures[links-only-removed] linksOnlyRemoved()
+//@ ensures[queries-only-removed] queriesOnlyRemoved()
+//@ modifies hc.RaftIndex, hc.Status, hc.ServiceName, hc.ServiceTags, T.checks, T.index, T.sessions, T.kvs, T.tombstones, T.session_checks, T.prepared-queries, map:s.lockDelay.delay
 //@ loop 1 invariant[still-to-delete] forall k string :: old(linkOfCheck(T_session_checks(k), hc.Node, string(hc.CheckID))) && T_sessions(old(T_session_checks(k).Session)) != nil ==> exists j int :: range1_idx <= j && j < len(sessions) && sessions[j] == old(T_session_checks(k))
 //@ loop 1 invariant[no-session-created] forall id string :: old(T_sessions(id)) == nil ==> T_sessions(id) == nil
 //@ loop 1 invariant[parents-untouched] (forall k string :: T_nodes(k) == old(T_nodes(k))) && (forall k string :: T_services(k) == old(T_services(k)))
+//@ loop 1 invariant[checks-keep-identity] checksKeepIdentity()
+//@ loop 1 invariant[nothing-given] holdersOnlyLost() && linksOnlyRemoved() && queriesOnlyRemoved()
 //@ loop 1 invariant[node-present] old(nodeAt(hc.Node, hc.PeerName)) != nil && (hc.ServiceID != "" ==> old(T_services(NodeServiceQuery{Node: hc.Node, Service: hc.ServiceID, PeerName: hc.PeerName})) != nil)
+// removing a health check: the row is gone, nothing else leaves the catalog, and (for local checks) every session
+// bound to the check is invalidated in the same transaction
 //@ func Store.deleteCheckTxn
-//@ trusted
+//@ props C04
 //@ results rerr
+//@ ensures[check-gone] rerr == nil ==> checkAt(node, string(checkID), peerName) == nil
+//@ ensures[only-this-check-removed] forall k string :: (old(T_checks(k)) == nil || old(T_checks(k)) != old(checkAt(node, string(checkID), peerName))) ==> checkIdentityKept(k)
+//@ ensures[nothing-created] forall k string :: old(T_checks(k)) == nil ==> T_checks(k) == nil
+//@ ensures[removed-or-kept] forall k string :: T_checks(k) == nil || checkIdentityKept(k)
+//@ ensures[parents-untouched] (forall k string :: T_nodes(k) == old(T_nodes(k))) && (forall k string :: T_services(k) == old(T_services(k)))
+//@ ensures[sessions-of-the-check-invalidated] rerr == nil && peerName == "" && old(checkAt(node, string(checkID), peerName)) != nil ==> forall k string :: old(linkOfCheck(T_session_checks(k), node, string(checkID))) ==> T_sessions(old(T_session_checks(k).Session)) == nil
+//@ ensures[no-session-created] forall id string :: old(T_sessions(id)) == nil ==> T_sessions(id) == nil
+//@ modifies T.checks, T.index, T.sessions, T.kvs, T.tombstones, T.session_checks, T.prepared-queries, map:s.lockDelay.delay
+//@ loop 1 invariant[still-to-delete] forall k string :: old(linkOfCheck(T_session_checks(k), node, string(checkID))) && T_sessions(old(T_session_checks(k).Session)) != nil ==> exists j int :: range1_idx <= j && j < len(sessions) && sessions[j] == old(T_session_checks(k))
+//@ loop 1 invariant[no-session-created] forall id string :: old(T_sessions(id)) == nil ==> T_sessions(id) == nil
+//@ loop 1 invariant[parents-untouched] (forall k string :: T_nodes(k) == old(T_nodes(k))) && (forall k string :: T_services(k) == old(T_services(k)))
+//@ loop 1 invariant[check-gone] checkAt(node, string(checkID), peerName) == nil && old(checkAt(node, string(checkID), peerName)) != nil
+//@ loop 1 invariant[only-this-check-removed] forall k string :: (old(T_checks(k)) == nil || old(T_checks(k)) != old(checkAt(node, string(checkID), peerName))) ==> checkIdentityKept(k)
+//@ loop 1 invariant[nothing-created] forall k string :: old(T_checks(k)) == nil ==> T_checks(k) == nil
+//@ loop 1 invariant[removed-or-kept] forall k string :: T_checks(k) == nil || checkIdentityKept(k)
 //@ func Store.ensureNodeTxn
 //@ trusted
 //@ results rerr
 //@ func Store.deleteNodeTxn
 //@ trusted
 //@ results rerr
-//@ func Store.deleteServiceTxn
+// ---- C07: the derived views (mesh topology, gateway links, kind-service-names, virtual IPs) are NOT under contract.
+// Their maintenance functions are used through ASSUMED frames: they touch only their own derived tables and the
+// index table, never the nodes, services, checks or session tables (listed under trusted_contracts in the evidence).
+//@ func cleanupMeshTopology
 //@ trusted
+//@ results err
+//@ modifies T.index
+//@ func freeServiceVirtualIP
+//@ trusted
+//@ results err
+//@ modifies T.index
+//@ func cleanupKindServiceName
+//@ trusted
+//@ results err
+//@ modifies T.index
+//@ func serviceHasConnectEnabledInstances
+//@ trusted
+//@ results has, err
+//@ modifies nothing
+//@ func cleanupGatewayWildcards
+//@ trusted
+//@ results err
+//@ modifies T.index
+//@ func catalogServiceMaxIndex
+//@ trusted
+//@ results ch, entry, err
+//@ modifies nothing
+
+//@ pure serviceAt(node string, id string, peer string) *structs.ServiceNode = T_services(NodeServiceQuery{Node: node, Service: id, PeerName: peer})
+//@ pure checkOfService(c *structs.HealthCheck, node string, id string, peer string) bool = c != nil && strLower(c.PeerName) == strLower(peer) && strLower(c.Node) == strLower(node) && strLower(c.ServiceID) == strLower(id)
+
+// removing a service instance removes its health checks in the same transaction and nothing else from the catalog
+//@ func Store.deleteServiceTxn
+//@ props C07
 //@ results rerr
+//@ ensures[service-gone] rerr == nil ==> serviceAt(nodeName, serviceID, peerName) == nil
+//@ ensures[its-checks-gone] rerr == nil && old(serviceAt(nodeName, serviceID, peerName)) != nil ==> forall k string :: !checkOfService(T_checks(k), nodeName, serviceID, peerName)
+//@ ensures[only-this-service-removed] forall k string :: T_services(k) == old(T_services(k)) || (T_services(k) == nil && old(T_services(k)) == old(serviceAt(nodeName, serviceID, peerName)))
+//@ ensures[only-its-checks-removed] forall k string :: checkIdentityKept(k) || (T_checks(k) == nil && old(checkOfService(T_checks(k), nodeName, serviceID, peerName)))
+//@ ensures[nodes-untouched] forall k string :: T_nodes(k) == old(T_nodes(k))
+//@ ensures[no-session-created] forall id string :: old(T_sessions(id)) == nil ==> T_sessions(id) == nil
+//@ loop 1 invariant[pos] 0 <= itPos(checks) && itPos(checks) <= itLen(checks)
+//@ loop 1 invariant[cursor] (check != nil ==> itPos(checks) >= 1 && check == itElem(checks, itPos(checks)-1)) && (check == nil ==> itPos(checks) == itLen(checks))
+//@ loop 1 invariant[collected] len(deleteChecks) == ite(check != nil, itPos(checks) - 1, itPos(checks)) && forall j int :: 0 <= j && j < len(deleteChecks) ==> deleteChecks[j] == itElem(checks, j).(*structs.HealthCheck)
+//@ loop 2 invariant[still-to-delete] forall k string :: checkOfService(T_checks(k), nodeName, serviceID, peerName) ==> exists j int :: range2_idx <= j && j < len(deleteChecks) && T_checks(deleteChecks[j]) == T_checks(k)
+//@ loop 2 invariant[listed-belong] forall j int :: 0 <= j && j < len(deleteChecks) ==> checkOfService(deleteChecks[j], nodeName, serviceID, peerName)
+//@ loop 2 invariant[only-its-checks-removed] forall k string :: checkIdentityKept(k) || (T_checks(k) == nil && old(checkOfService(T_checks(k), nodeName, serviceID, peerName)))
+//@ loop 2 invariant[rest-untouched] (forall k string :: T_nodes(k) == old(T_nodes(k))) && (forall k string :: T_services(k) == old(T_services(k))) && (forall id string :: old(T_sessions(id)) == nil ==> T_sessions(id) == nil)
 //@ func ensureServiceTxn
 //@ trusted
 //@ results rerr
